@@ -269,6 +269,16 @@ pub fn run_c07(out: &mut Out, tier: &str, seed: u64) {
         if d_sha512_chunks(&pieces) != sodium::sha512(&msg) { out.hit("sha512.multi-part.differs-from-libsodium", format!("len {} split {:?}", len, [a, bq - a, len - bq]), rp.clone()); }
         if d_generichash_chunks(32, None, &pieces, 32).ok() != sodium::generichash(32, &msg, None) { out.hit("generichash.multi-part.differs-from-libsodium", format!("len {} split {:?}", len, [a, bq - a, len - bq]), rp.clone()); }
     }
+    // the core functions with constants supplied by the caller (four distinct words, sigma passed explicitly, tau)
+    for cw in [(1u32, 2u32, 3u32, 4u32), (0x61707865, 0x3320646e, 0x79622d32, 0x6b206574), (0x61707865, 0x3120646e, 0x79622d36, 0x6b206574), (0xffffffff, 0, 0x80000000, 0x7fffffff)] {
+        let (key, input): ([u8; 32], [u8; 16]) = (rng.arr(), rng.arr());
+        let cb: [u8; 16] = [cw.0.to_le_bytes(), cw.1.to_le_bytes(), cw.2.to_le_bytes(), cw.3.to_le_bytes()].concat().try_into().unwrap();
+        out.search_evaluations += 2;
+        let mut o = [0u8; 32]; crypto_core_hsalsa20(&mut o, &input, &key, Some(cw));
+        if o != sodium::hsalsa20_c(&input, &key, &cb) { out.hit("hsalsa20.custom-constants.differs-from-libsodium", format!("constants {:?}", cw), json!({"op":"core.hsalsa20.constants","key":hx(&key),"input":hx(&input),"constants":hx(&cb)})); }
+        let mut o2 = [0u8; 32]; crypto_core_hchacha20(&mut o2, &input, &key, Some(cw));
+        if o2 != sodium::hchacha20_c(&input, &key, &cb) { out.hit("hchacha20.custom-constants.differs-from-libsodium", format!("constants {:?}", cw), json!({"op":"core.hchacha20.constants","key":hx(&key),"input":hx(&input),"constants":hx(&cb)})); }
+    }
     // cores and increment
     let n = if thorough { 400 } else { 96 };
     for k in 0..n {
